@@ -69,6 +69,11 @@ func setup() {
 		for i := 1; i <= 4; i++ {
 			argVals["i"+strconv.Itoa(i)] = ev.MustEval(s, fmt.Sprintf("(make-instance 'c10k%d)", i))
 		}
+		// another generic function, with an :around method of its own and no marks: an :around method of style
+		// "nested" calls it before its call-next-method, which must go on with the chain of the outer call
+		ev.MustEval(s, "(defgeneric c10-helper (x))")
+		ev.MustEval(s, "(defmethod c10-helper ((x t)) x)")
+		ev.MustEval(s, "(defmethod c10-helper :around ((x t)) (list 0 (call-next-method x)))")
 	})
 }
 
@@ -173,6 +178,8 @@ func methodBody(q, style string, id, n int, tagged bool) string {
 			return fmt.Sprintf("(vt:mark %d (next-method-p)) (list %d %s %s)", id, id, cnm, mark(-id))
 		case "noargs":
 			return fmt.Sprintf("%s (list %d (call-next-method) %s)", mark(id), id, mark(-id))
+		case "nested":
+			return fmt.Sprintf("%s (c10-helper 0) (list %d %s %s)", mark(id), id, cnm, mark(-id))
 		}
 		return fmt.Sprintf("%s (list %d %s %s)", mark(id), id, cnm, mark(-id))
 	}
@@ -537,7 +544,7 @@ func genHistory(rt *rapid.T) Case {
 	// intended proportions (def 35%, call 35%, rm 20%, cam 10%) hold for small and large draws alike
 	kinds := []string{"def", "call", "def", "call", "rm", "def", "call", "cam", "def", "call", "rm", "def", "call", "def", "call", "rm", "rmany", "cam", "def", "call"}
 	qualTab := []int{0, 3, 1, 2, 0, 3, 1, 2, 0, 3}
-	styleTab := []string{"", "nmp", "", "noargs", "", "twice", "", "stop", "", "nmp", "", "", "noargs", "", "twice", "", "stop", "", "nmp", ""}
+	styleTab := []string{"", "nmp", "nested", "noargs", "", "twice", "nested", "stop", "", "nmp", "nested", "", "noargs", "", "twice", "nested", "stop", "", "nmp", ""}
 	for i := 0; i < n; i++ {
 		kind := kinds[rapid.IntRange(0, len(kinds)-1).Draw(rt, "op")]
 		if kind == "rm" && len(defined) == 0 {
